@@ -124,9 +124,9 @@ From JP Require Import FiltParse CmpParse NegFilt RootOp QueryParse FiltChain Fi
 Theorem C01_filter_retrieval : forall cfg parse_float regex_ok ffun afun regex_match,
   (forall f v w, small v -> ffun f v = Some w -> small w) ->
   (forall f l w, Forall small l -> afun f l = Some w -> small w) ->
-  forall x r doc st, forallb fstep_ok (x :: r) = true -> forallb (fstep_okp parse_float) (x :: r) = true -> small doc -> ok st ->
+  forall x r doc st, forallb fstep_ok (x :: r) = true -> forallb (fstep_okp parse_float regex_ok) (x :: r) = true -> small doc -> ok st ->
   exists t, parse_with cfg parse_float regex_ok jsonpath_grammar (fchain_path (x :: r)) = ParseOk t /\
-            match nav_allf parse_float doc (x :: r) ([], doc) with
+            match nav_allf parse_float regex_match doc (x :: r) ([], doc) with
             | [] => exists e, fst (eval_run ffun afun regex_match t doc st) = OErr e
             | l => fst (eval_run ffun afun regex_match t doc st) = OOk (map (loc_result cfg) l)
             end.
@@ -138,8 +138,8 @@ Example C01_filter_example :
   let path := [FE [RPlain (SDot [97%N])]] in
   fchain_path path = [36; 91; 63; 40; 64; 46; 97; 41; 93]%N /\
   forallb fstep_ok path = true /\
-  map snd (nav_allf (fun _ => None) doc path ([], doc)) = [VObj [("a", VNum (num_of_Z 1))]; VObj [("a", VNull)]]%string /\
-  map snd (nav_allf (fun _ => None) VNull [FS (RPlain (SWild false)); FE []] ([], VObj [("k", doc)]%string)) = [VObj [("a", VNum (num_of_Z 1))]; VObj [("b", VNum (num_of_Z 2))]; VNum (num_of_Z 3); VObj [("a", VNull)]]%string.
+  map snd (nav_allf (fun _ => None) (fun _ _ => false) doc path ([], doc)) = [VObj [("a", VNum (num_of_Z 1))]; VObj [("a", VNull)]]%string /\
+  map snd (nav_allf (fun _ => None) (fun _ _ => false) VNull [FS (RPlain (SWild false)); FE []] ([], VObj [("k", doc)]%string)) = [VObj [("a", VNum (num_of_Z 1))]; VObj [("b", VNum (num_of_Z 2))]; VNum (num_of_Z 3); VObj [("a", VNull)]]%string.
 Proof. cbv zeta. repeat split; vm_compute; reflexivity. Qed.
 
 Example C01_comparison_filter_example :
@@ -148,16 +148,16 @@ Example C01_comparison_filter_example :
   let gt := [FC [RPlain (SDot [97%N])] OGt [50%N]] in
   let ne := [FC [RPlain (SDot [97%N])] ONe [50%N]] in
   fchain_path gt = [36; 91; 63; 40; 64; 46; 97; 62; 50; 41; 93]%N /\
-  forallb fstep_ok gt = true /\ forallb (fstep_okp pf) gt = true /\
-  map snd (nav_allf pf doc gt ([], doc)) = [VObj [("a", VJNum "3" (num_of_Z 3))]]%string /\
-  List.length (nav_allf pf doc ne ([], doc)) = 4%nat.
+  forallb fstep_ok gt = true /\ forallb (fstep_okp pf (fun _ => true)) gt = true /\
+  map snd (nav_allf pf (fun _ _ => false) doc gt ([], doc)) = [VObj [("a", VJNum "3" (num_of_Z 3))]]%string /\
+  List.length (nav_allf pf (fun _ _ => false) doc ne ([], doc)) = 4%nat.
 Proof. cbv zeta. repeat split; vm_compute; reflexivity. Qed.
 
 Example C01_negated_filter_example :
   let doc := VArr [VObj [("a", VNum (num_of_Z 1))]; VObj [("b", VNum (num_of_Z 2))]; VNum (num_of_Z 3)]%string in
   let path := [FN [RPlain (SDot [97%N])]] in
   fchain_path path = [36; 91; 63; 40; 33; 64; 46; 97; 41; 93]%N /\ forallb fstep_ok path = true /\
-  map snd (nav_allf (fun _ => None) doc path ([], doc)) = [VObj [("b", VNum (num_of_Z 2))]; VNum (num_of_Z 3)]%string.
+  map snd (nav_allf (fun _ => None) (fun _ _ => false) doc path ([], doc)) = [VObj [("b", VNum (num_of_Z 2))]; VNum (num_of_Z 3)]%string.
 Proof. cbv zeta. repeat split; vm_compute; reflexivity. Qed.
 
 Example C01_query_filter_example :
@@ -166,8 +166,8 @@ Example C01_query_filter_example :
   let a := [RPlain (SDot [97%N])] in let b := [RPlain (SDot [98%N])] in let c := [RPlain (SDot [99%N])] in
   let path := [FQ [[BC a OGt [50%N]; BN b]; [BE c]]] in
   fchain_path path = [36; 91; 63; 40; 64; 46; 97; 62; 50; 38; 38; 33; 64; 46; 98; 124; 124; 64; 46; 99; 41; 93]%N /\
-  forallb fstep_ok path = true /\ forallb (fstep_okp pf) path = true /\
-  map snd (nav_allf pf doc path ([], doc)) = [VObj [("a", VNum (num_of_Z 3))]; VObj [("c", VNull)]]%string.
+  forallb fstep_ok path = true /\ forallb (fstep_okp pf (fun _ => true)) path = true /\
+  map snd (nav_allf pf (fun _ _ => false) doc path ([], doc)) = [VObj [("a", VNum (num_of_Z 3))]; VObj [("c", VNull)]]%string.
 Proof. cbv zeta. repeat split; vm_compute; reflexivity. Qed.
 
 Example C01_root_operand_example :
@@ -177,12 +177,12 @@ Example C01_root_operand_example :
   let xs := FS (RPlain (SDot [120%N; 115%N])) in
   let gt := [xs; FQ [[BCR a OGt lim]]] in
   fchain_path gt = [36; 46; 120; 115; 91; 63; 40; 64; 46; 97; 62; 36; 46; 108; 105; 109; 41; 93]%N /\
-  forallb fstep_ok gt = true /\ forallb (fstep_okp pf) gt = true /\
-  map snd (nav_allf pf doc gt ([], doc)) = [VObj [("a", VJNum "3" (num_of_Z 3))]]%string /\
-  List.length (nav_allf pf doc [xs; FQ [[BRE lim]]] ([], doc)) = 3%nat /\
-  nav_allf pf doc [xs; FQ [[BRE no]]] ([], doc) = [] /\
-  List.length (nav_allf pf doc [xs; FQ [[BRN no; BE a]]] ([], doc)) = 3%nat /\
-  nav_allf pf doc [xs; FQ [[BCR a OGt no]]] ([], doc) = [].
+  forallb fstep_ok gt = true /\ forallb (fstep_okp pf (fun _ => true)) gt = true /\
+  map snd (nav_allf pf (fun _ _ => false) doc gt ([], doc)) = [VObj [("a", VJNum "3" (num_of_Z 3))]]%string /\
+  List.length (nav_allf pf (fun _ _ => false) doc [xs; FQ [[BRE lim]]] ([], doc)) = 3%nat /\
+  nav_allf pf (fun _ _ => false) doc [xs; FQ [[BRE no]]] ([], doc) = [] /\
+  List.length (nav_allf pf (fun _ _ => false) doc [xs; FQ [[BRN no; BE a]]] ([], doc)) = 3%nat /\
+  nav_allf pf (fun _ _ => false) doc [xs; FQ [[BCR a OGt no]]] ([], doc) = [].
 Proof. cbv zeta. repeat split; vm_compute; reflexivity. Qed.
 
 (* @ inner == $ steps: deep equality with the one value the `$` path reaches; when it reaches nothing, the both-absent rule *)
@@ -193,9 +193,21 @@ Example C01_path_equality_example :
   let xs := FS (RPlain (SDot [120%N; 115%N])) in
   fchain_path [xs; FQ [[BPQ a false want]]] = [36; 46; 120; 115; 91; 63; 40; 64; 46; 97; 61; 61; 36; 46; 119; 97; 110; 116; 41; 93]%N /\
   forallb fstep_ok [xs; FQ [[BPQ a false want]]] = true /\
-  map snd (nav_allf pf doc [xs; FQ [[BPQ a false want]]] ([], doc)) = [VObj [("a", VArr [VNum (num_of_Z 1)])]]%string /\
-  List.length (nav_allf pf doc [xs; FQ [[BPQ a true want]]] ([], doc)) = 2%nat /\
-  nav_allf pf doc [xs; FQ [[BPQ a false no]]] ([], doc) = [] /\
-  List.length (nav_allf pf doc [xs; FQ [[BPQ c false no]]] ([], doc)) = 3%nat /\
-  nav_allf pf doc [xs; FQ [[BPQ c true no]]] ([], doc) = [].
+  map snd (nav_allf pf (fun _ _ => false) doc [xs; FQ [[BPQ a false want]]] ([], doc)) = [VObj [("a", VArr [VNum (num_of_Z 1)])]]%string /\
+  List.length (nav_allf pf (fun _ _ => false) doc [xs; FQ [[BPQ a true want]]] ([], doc)) = 2%nat /\
+  nav_allf pf (fun _ _ => false) doc [xs; FQ [[BPQ a false no]]] ([], doc) = [] /\
+  List.length (nav_allf pf (fun _ _ => false) doc [xs; FQ [[BPQ c false no]]] ([], doc)) = 3%nat /\
+  nav_allf pf (fun _ _ => false) doc [xs; FQ [[BPQ c true no]]] ([], doc) = [].
+Proof. cbv zeta. repeat split; vm_compute; reflexivity. Qed.
+
+(* @ inner =~ /body/ (RegexOp.v): the members whose value at inner is a string that the expression matches; what "matches"
+   means is regexp.MatchString, a parameter of the model — here a toy one (equality with the expression's text) *)
+Example C01_regex_filter_example :
+  let pf := fun s : string => @None num in
+  let rm := fun re s : string => String.eqb re s in
+  let doc := VArr [VObj [("a", VStr "x")]; VObj [("a", VStr "y")]; VObj [("a", VNum (num_of_Z 1))]; VObj [("b", VStr "x")]]%string in
+  let path := [FQ [[BX [RPlain (SDot [97%N])] [120%N]]]] in
+  fchain_path path = [36; 91; 63; 40; 64; 46; 97; 61; 126; 47; 120; 47; 41; 93]%N /\
+  forallb fstep_ok path = true /\ forallb (fstep_okp pf (fun _ => true)) path = true /\
+  map snd (nav_allf pf rm doc path ([], doc)) = [VObj [("a", VStr "x")]]%string.
 Proof. cbv zeta. repeat split; vm_compute; reflexivity. Qed.
